@@ -28,11 +28,18 @@ func runC07(c *an.Ctx) string {
 	return explanationC07
 }
 
+// callsIn lists the calls of callee in f and in the helpers extracted from it since the reference tree.
 func callsIn(f *an.Func, callee string) []*ast.CallExpr {
+	group := []*an.Func{f}
+	if Current != nil {
+		group = Current.WithNewHelpers(f)
+	}
 	var out []*ast.CallExpr
-	for _, call := range an.AllCallsIn(f.Decl.Body) {
-		if an.CalleeName(f.Pkg.TypesInfo, call) == callee {
-			out = append(out, call)
+	for _, g := range group {
+		for _, call := range an.AllCallsIn(g.Decl.Body) {
+			if an.CalleeName(g.Pkg.TypesInfo, call) == callee {
+				out = append(out, call)
+			}
 		}
 	}
 	return out
@@ -49,8 +56,8 @@ func r071Routes(c *an.Ctx) {
 		n := len(callsIn(f, fp))
 		// the verb comes from RouteExpr.Method
 		readsMethod := false
-		ast.Inspect(f.Decl.Body, func(nd ast.Node) bool {
-			if fv := an.FieldOf(f.Pkg.TypesInfo, asExpr(nd)); fv != nil && fv.Name() == "Method" && an.NamedTypeName(fieldOwner(f.Pkg.TypesInfo, nd)) == an.P("expr")+".RouteExpr" {
+		c.InspectAll(f, func(hf *an.Func, nd ast.Node) bool {
+			if fv := an.FieldOf(hf.Pkg.TypesInfo, asExpr(nd)); fv != nil && fv.Name() == "Method" && an.NamedTypeName(fieldOwner(hf.Pkg.TypesInfo, nd)) == an.P("expr")+".RouteExpr" {
 				readsMethod = true
 			}
 			return true
@@ -103,39 +110,6 @@ func r072Verbs(c *an.Ctx) {
 			fv := an.FieldOf(f.Pkg.TypesInfo, tag)
 			return fv != nil && fv.Name() == "Method"
 		})
-		// the switch may sit in a helper extracted from the builder that receives the route's method
-		group := c.WithNewHelpers(f)
-		for _, h := range group[1:] {
-			methodParams := map[types.Object]bool{}
-			for _, g := range group {
-				ginfo := g.Pkg.TypesInfo
-				for _, call := range an.AllCallsIn(g.Decl.Body) {
-					if an.Callee(ginfo, call) != types.Object(h.Obj) {
-						continue
-					}
-					k := 0
-					for _, fl := range h.Decl.Type.Params.List {
-						for _, nm := range fl.Names {
-							if k < len(call.Args) {
-								if fv := an.FieldOf(ginfo, call.Args[k]); fv != nil && fv.Name() == "Method" {
-									methodParams[h.Pkg.TypesInfo.Defs[nm]] = true
-								}
-							}
-							k++
-						}
-					}
-				}
-			}
-			if len(methodParams) == 0 {
-				continue
-			}
-			labels = append(labels, caseLabelValues(h, func(tag ast.Expr) bool {
-				if fv := an.FieldOf(h.Pkg.TypesInfo, tag); fv != nil && fv.Name() == "Method" {
-					return true
-				}
-				return methodParams[an.ObjOf(h.Pkg.TypesInfo, tag)]
-			})...)
-		}
 		have := map[string]bool{}
 		for _, l := range labels {
 			have[l] = true
